@@ -120,6 +120,16 @@ func BridgeScript(h *Hist, wraps, unwraps int) error {
 	if err := pair2(); err != nil {
 		return err
 	}
+	// a third pair for a token the bridge OWNS (wraps burn it, redeems mint it through the token contract) with a short
+	// redeem delay: issued by a guardian, handed to the bridge contract, pair set by the administrator (time-challenged)
+	if h.C.Weighted("bridge.ownedPair", 1, 1) == 1 {
+		if err := ownedPairScript(h, admin, guardians, produce); err != nil {
+			h.C.Note("owned pair not set up: %v", err)
+			h.C.Class("bridge-owned-pair-incomplete")
+		} else {
+			h.C.Class("bridge-owned-pair")
+		}
+	}
 	for i := 0; i < wraps; i++ {
 		from := guardians[i%len(guardians)]
 		z, chain := types.ZnnTokenStandard, uint32(123)
@@ -127,7 +137,7 @@ func BridgeScript(h *Hist, wraps, unwraps int) error {
 			z, chain = types.QsrTokenStandard, uint32(124)
 		}
 		if err := call(from, z, int64(1000+i), fmt.Sprintf("wrap %d", i), definition.WrapTokenMethodName, uint32(2), chain, BridgeDestinations[i%len(BridgeDestinations)]); err != nil {
-			return err
+			continue // that account cannot pay (plasma, balance): the configuration stands, the other requests are filed
 		}
 		if i%4 == 3 {
 			if err := produce(1); err != nil {
@@ -156,7 +166,7 @@ func BridgeScript(h *Hist, wraps, unwraps int) error {
 		}
 		if err := call(guardians[(i+1)%len(guardians)], types.ZnnTokenStandard, 0, fmt.Sprintf("unwrap %d", i), definition.UnwrapTokenMethodName, param.NetworkClass, param.ChainId,
 			param.TransactionHash, param.LogIndex, param.ToAddress, param.TokenAddress, param.Amount, sig); err != nil {
-			return err
+			continue
 		}
 		if i%4 == 3 {
 			if err := produce(1); err != nil {
@@ -165,6 +175,101 @@ func BridgeScript(h *Hist, wraps, unwraps int) error {
 		}
 	}
 	return produce(2)
+}
+
+// OwnedTokenAddress is the foreign-chain address of the bridge-owned token's pair.
+const OwnedTokenAddress = "0x7fbdb2315678afecb367f032d93f642f64180aa3"
+
+func ownedPairScript(h *Hist, admin types.Address, guardians []types.Address, produce func(int) error) error {
+	issuer := guardians[0]
+	if h.Balance(issuer, types.ZnnTokenStandard).Cmp(constants.TokenIssueAmount) < 0 {
+		return fmt.Errorf("issuer cannot pay the issue fee")
+	}
+	before := map[types.ZenonTokenStandard]bool{}
+	for _, t := range h.TokenList() {
+		before[t.TokenStandard] = true
+	}
+	data := definition.ABIToken.PackMethodPanic(definition.IssueMethodName, "Bridge-Owned", "BOWN", "verif.test", big.NewInt(1000000), big.NewInt(1000000000), uint8(0), true, true, false)
+	if _, err := h.Submit(&nom.AccountBlock{Address: issuer, ToAddress: types.TokenContract, TokenStandard: types.ZnnTokenStandard, Amount: new(big.Int).Set(constants.TokenIssueAmount), Data: data}, "issue the bridge-owned token"); err != nil {
+		return err
+	}
+	if err := produce(3); err != nil {
+		return err
+	}
+	var zts types.ZenonTokenStandard
+	found := false
+	for _, t := range h.TokenList() {
+		if !before[t.TokenStandard] && t.Owner == issuer && t.TokenSymbol == "BOWN" {
+			zts, found = t.TokenStandard, true
+		}
+	}
+	if !found {
+		return fmt.Errorf("token not issued")
+	}
+	// the issuer receives the initial supply and spreads a part of it
+	for _, hsh := range h.Unreceived(issuer) {
+		_, _ = h.Submit(&nom.AccountBlock{BlockType: nom.BlockTypeUserReceive, Address: issuer, FromBlockHash: hsh}, "issuer receives")
+	}
+	for i := 1; i < len(guardians); i++ {
+		_, _ = h.Submit(&nom.AccountBlock{Address: issuer, ToAddress: guardians[i], TokenStandard: zts, Amount: big.NewInt(100000)}, "spread the bridge-owned token")
+	}
+	upd := definition.ABIToken.PackMethodPanic(definition.UpdateTokenMethodName, zts, types.BridgeContract, true, true)
+	if _, err := h.Submit(&nom.AccountBlock{Address: issuer, ToAddress: types.TokenContract, TokenStandard: types.ZnnTokenStandard, Amount: big.NewInt(0), Data: upd}, "hand the token to the bridge contract"); err != nil {
+		return err
+	}
+	if err := produce(2); err != nil {
+		return err
+	}
+	for i := 1; i < len(guardians); i++ {
+		for _, hsh := range h.Unreceived(guardians[i]) {
+			_, _ = h.Submit(&nom.AccountBlock{BlockType: nom.BlockTypeUserReceive, Address: guardians[i], FromBlockHash: hsh}, "guardian receives")
+		}
+	}
+	delay := uint32([]int{1, 2, 5}[h.C.Pick("bridge.ownedDelay", 3)])
+	for i := 0; i < 2; i++ {
+		pd := definition.ABIBridge.PackMethodPanic(definition.SetTokenPairMethod, uint32(2), uint32(123), zts, OwnedTokenAddress, true, true, true, big.NewInt(10), uint32(10), delay, `{}`)
+		if _, err := h.Submit(&nom.AccountBlock{Address: admin, ToAddress: types.BridgeContract, TokenStandard: types.ZnnTokenStandard, Amount: big.NewInt(0), Data: pd}, "bridge setTokenPair owned"); err != nil {
+			return err
+		}
+		if err := produce(int(constants.MinSoftDelay) + 3); err != nil {
+			return err
+		}
+	}
+	h.RefreshPools()
+	return nil
+}
+
+// BridgePair is a token pair of one of the two networks the scripts configure, as the contract stores it now.
+type BridgePair struct {
+	ChainId uint32
+	definition.TokenPair
+}
+
+// BridgePairs reads the configured pairs from the contract's storage at the pool frontier.
+func BridgePairs(h *Hist) []BridgePair {
+	st := h.A.Chain.GetFrontierAccountStore(types.BridgeContract).Storage()
+	var out []BridgePair
+	for _, ch := range []uint32{123, 124} {
+		ni, err := definition.GetNetworkInfoVariable(st, 2, ch)
+		if err != nil || ni == nil {
+			continue
+		}
+		for _, p := range ni.TokenPairs {
+			out = append(out, BridgePair{ChainId: ch, TokenPair: p})
+		}
+	}
+	return out
+}
+
+// laterPairs: the pairs of other tokens than ZNN and QSR (the bridge-owned token's).
+func laterPairs(h *Hist) []BridgePair {
+	var out []BridgePair
+	for _, p := range BridgePairs(h) {
+		if p.TokenStandard != types.ZnnTokenStandard && p.TokenStandard != types.QsrTokenStandard {
+			out = append(out, p)
+		}
+	}
+	return out
 }
 
 func TssSign(hash []byte) (string, error) {
@@ -252,6 +357,24 @@ type UnwrapRecord struct {
 	Send     types.Hash
 }
 
+// BridgeFlowIntents: the request flow only (wrap, signed unwrap, redeem around the end of the delay, revoke).
+func BridgeFlowIntents() []Intent {
+	return []Intent{{"bridge-wrap", intentWrap}, {"bridge-unwrap", intentUnwrap}, {"bridge-unwrap2", intentUnwrap}, {"bridge-timed-redeem", intentTimedRedeem},
+		{"bridge-timed-redeem2", intentTimedRedeem}, {"bridge-redeem", intentRedeem}, {"bridge-update-wrap", intentUpdateWrap}, {"bridge-revoke-unwrap", intentRevokeUnwrap}}
+}
+
+// ActIntentOf performs one applicable intent of the given list.
+func (h *Hist) ActIntentOf(list []Intent, label string) {
+	start := h.C.Pick(label, len(list))
+	for i := 0; i < len(list); i++ {
+		in := list[(start+i)%len(list)]
+		if in.Try(h) {
+			h.C.Class("intent-" + in.Name)
+			return
+		}
+	}
+}
+
 // BridgeIntents are model-guided calls for bridge and liquidity in bridge-enabled worlds.
 func BridgeIntents() []Intent {
 	return []Intent{
@@ -262,6 +385,7 @@ func BridgeIntents() []Intent {
 		{"bridge-admin-misc", intentBridgeAdminMisc},
 		{"emergency", intentEmergency}, {"propose-administrator", intentProposeAdmin}, {"propose-administrator2", intentProposeAdmin},
 		{"change-administrator", intentChangeAdmin}, {"liquidity-fund", intentLiqFund},
+		{"bridge-timed-redeem", intentTimedRedeem}, {"bridge-timed-redeem2", intentTimedRedeem},
 	}
 }
 
@@ -271,6 +395,19 @@ func intentWrap(h *Hist) bool {
 	z, chain := types.ZnnTokenStandard, uint32(123)
 	if c.Bool("wrap.qsr") {
 		z, chain = types.QsrTokenStandard, uint32(124)
+	}
+	if pairs := laterPairs(h); len(pairs) > 0 && c.Bool("wrap.otherPair") {
+		p := pairs[c.Pick("wrap.pair", len(pairs))]
+		z, chain = p.TokenStandard, p.ChainId
+		// somebody who holds the token
+		for _, u := range h.Users {
+			if h.Balance(u, z).Sign() > 0 {
+				from = u
+				if c.Bool("wrap.nextHolder") {
+					break
+				}
+			}
+		}
 	}
 	amt := big.NewInt(int64([]int{99, 100, 101, 5000, 100000}[c.Pick("wrap.amt", 5)]))
 	if h.Balance(from, z).Cmp(amt) < 0 {
@@ -285,6 +422,11 @@ func intentUnwrap(h *Hist) bool {
 	chain, tokenAddr, z := uint32(123), "0x5fbdb2315678afecb367f032d93f642f64180aa3", types.ZnnTokenStandard
 	if c.Bool("unwrap.qsr") {
 		chain, tokenAddr, z = uint32(124), "0x6fbdb2315678afecb367f032d93f642f64180aa3", types.QsrTokenStandard
+	}
+	if pairs := laterPairs(h); len(pairs) > 0 && c.Bool("unwrap.otherPair") {
+		p := pairs[c.Pick("unwrap.pair", len(pairs))]
+		chain, tokenAddr, z = p.ChainId, p.TokenAddress, p.TokenStandard
+		c.Class("unwrap-of-a-later-pair")
 	}
 	n := len(h.Unwraps)
 	to := h.user("unwrap.to")
@@ -327,6 +469,49 @@ func intentRedeem(h *Hist) bool {
 		fmt.Sprintf("bridge.Redeem(%s/%d)", u.TxHash.String()[:8], u.LogIndex))
 }
 
+// intentTimedRedeem: a filed, not yet redeemed or revoked unwrap request is redeemed around the end of its delay
+// (the momentums up to then are produced first; the drawn offset lands just before, at, or after the first allowed height).
+func intentTimedRedeem(h *Hist) bool {
+	c := h.C
+	st := h.A.Chain.GetFrontierAccountStore(types.BridgeContract).Storage()
+	var open []*definition.UnwrapTokenRequest
+	for _, u := range h.Unwraps {
+		if r, err := definition.GetUnwrapTokenRequestByTxHashAndLog(st, u.TxHash, u.LogIndex); err == nil && r != nil && r.Redeemed == 0 && r.Revoked == 0 {
+			open = append(open, r)
+		}
+	}
+	if len(open) == 0 {
+		return false
+	}
+	r := open[c.Pick("tred.idx", len(open))]
+	delay := uint64(0)
+	for _, p := range BridgePairs(h) {
+		if p.ChainId == r.ChainId && p.TokenAddress == r.TokenAddress {
+			delay = uint64(p.RedeemDelay)
+		}
+	}
+	// the receive of the redeem is evaluated at the momentum that confirms the send: frontier+1 at the earliest
+	first := r.RegistrationMomentumHeight + delay
+	off := c.Int("tred.offset", -2, 1)
+	for n := 0; !h.Dead && n < 25 && int64(h.A.Height())+1 < int64(first)+int64(off); n++ {
+		if !h.Produce(0) {
+			return false
+		}
+	}
+	from := h.user("tred.from")
+	ok := h.call(from, types.BridgeContract, types.ZnnTokenStandard, big.NewInt(0), definition.ABIBridge.PackMethodPanic(definition.RedeemUnwrapMethodName, r.TransactionHash, r.LogIndex),
+		fmt.Sprintf("bridge.Redeem(%s/%d) timed: registered at %d, delay %d, frontier %d", r.TransactionHash.String()[:8], r.LogIndex, r.RegistrationMomentumHeight, delay, h.A.Height()))
+	if ok && c.Bool("tred.again") {
+		// and once more in the same or the next momentum
+		if c.Bool("tred.nextMomentum") {
+			h.Produce(0)
+		}
+		h.call(h.user("tred.from2"), types.BridgeContract, types.ZnnTokenStandard, big.NewInt(0), definition.ABIBridge.PackMethodPanic(definition.RedeemUnwrapMethodName, r.TransactionHash, r.LogIndex),
+			fmt.Sprintf("bridge.Redeem(%s/%d) repeated", r.TransactionHash.String()[:8], r.LogIndex))
+	}
+	return ok
+}
+
 func intentRevokeUnwrap(h *Hist) bool {
 	if len(h.Unwraps) == 0 {
 		return false
@@ -342,6 +527,12 @@ func intentRevokeUnwrap(h *Hist) bool {
 
 func intentHalt(h *Hist) bool {
 	from := BridgeAdmin()
+	// a halted bridge refuses everything else until it is unhalted and the unhalt duration has passed: not too often
+	if st := h.A.Chain.GetFrontierAccountStore(types.BridgeContract).Storage(); st != nil {
+		if bi, err := definition.GetBridgeInfoVariable(st); err == nil && bi != nil && !bi.Halted && h.C.Weighted("halt.really", 2, 1) == 0 {
+			return false
+		}
+	}
 	if h.C.Bool("halt.unhalt") {
 		return h.call(from, types.BridgeContract, types.ZnnTokenStandard, big.NewInt(0), definition.ABIBridge.PackMethodPanic(definition.UnhaltMethodName), "bridge.Unhalt()")
 	}
